@@ -36,9 +36,17 @@ CHECKS = [
         "Matryoshka.calculate_target_power (None = unchanged). Found and repaired a genuine defect (fix: commit in /repo).",
         REALS + "; event-sequence quantifier carried by a class invariant required and proved preserved; sending (one Request per non-None result) not yet under contract",
         "contract-based deductive verification (z3), modular over Matryoshka's contracts", "DESIGN.md 3 (C11)"),
+    chk("C13", "proof",
+        "Deductive proof in IEEE-754 binary64 (z3 FloatingPoint) that every formula step pops/pushes exactly as documented, "
+        "never raises on any float operands, and yields NaN when either operand is NaN (min/max in both operand orders, "
+        "division by zero -> non-finite); MetricFetcher.apply's None/NaN/inf -> 0.0 or NaN mapping. Found and repaired two "
+        "genuine defects (fix: commits in /repo).",
+        "z3's FloatingPoint theory = IEEE binary64 = python float; python max/min/ZeroDivisionError semantics as modelled (probed natively on every run); "
+        "the evaluator's final NaN/inf -> None mapping and whole-expression composition are not yet under contract",
+        "contract-based deductive verification in IEEE float mode (z3 FP theory)", "DESIGN.md 3 (C13)"),
 ]
 
 _PENDING = "check under construction in this session (contracts not yet written); will be claimed once its obligations discharge"
 NOT_APPLICABLE = [
     {"property_id": "C12", "reason": "formula generators are graph algorithms over networkx.DiGraph (recursive dfs, successor-set classification); no contract within reach of the VC generator expresses 'the generated formula balances for every valid graph' (DESIGN.md 4)"},
-] + [{"property_id": f"C{n:02d}", "reason": _PENDING} for n in (1, 2, 5, 6, 7, 8, 9, 10, 13, 14, 15, 16, 17, 18, 19, 20)]
+] + [{"property_id": f"C{n:02d}", "reason": _PENDING} for n in (1, 2, 5, 6, 7, 8, 9, 10, 14, 15, 16, 17, 18, 19, 20)]
